@@ -9,8 +9,9 @@ PROPERTY = 'C17'
 LEVEL = 'exploration'
 EXHAUSTIVE = True
 RULE = (
-    'EXHAUSTIVE over a class hierarchy - quick: 5 classes (chain Base > Mid > Leaf, sibling, '
-    'unrelated) + 1 nested Concurrent type; thorough: 7 classes + 2 nested types: every raised '
+    'EXHAUSTIVE over a class hierarchy - quick: 6 classes (chain Base > Mid > Leaf, sibling, '
+    'unrelated, a second class that is also *named* Leaf) + 1 nested Concurrent type; thorough: 8 '
+    'classes + 2 nested types: every raised '
     'sequence of 1-3 child exceptions (all orders, repetitions) x every handler specialisation '
     'of 1-3 listed types with and without `...`, bare Concurrent and Concurrent[...]. For each '
     'pair the set-theoretic rule of the statement (reference predicate, recursive for nested '
@@ -56,8 +57,11 @@ class OtherLeaf(Other):
     pass
 
 
-QUICK_CLASSES = [Base, Mid, Leaf, Sib, Other]
-THOROUGH_CLASSES = [Base, Mid, Leaf, Sib, Sib2, Other, OtherLeaf]
+#: a *different* class that merely has the same name as ``Leaf`` (e.g. csv.Error / binascii.Error)
+LeafTwin = type('Leaf', (Other,), {})
+
+QUICK_CLASSES = [Base, Mid, Leaf, Sib, Other, LeafTwin]
+THOROUGH_CLASSES = [Base, Mid, Leaf, Sib, Sib2, Other, OtherLeaf, LeafTwin]
 
 
 def atoms(tier):
@@ -156,7 +160,7 @@ def handler_class(handler):
 
 def describe(atom):
     if atom[0] == 'E':
-        return atom[1].__name__
+        return 'LeafTwin' if atom[1] is LeafTwin else atom[1].__name__
     return 'Concurrent[%s%s]' % (', '.join(describe(sub) for sub in atom[1]),
                                  ', ...' if atom[2] else '')
 
